@@ -1,4 +1,663 @@
+import H3.Lemmas.Iso
+import H3.Props.C03
 /-! # C07 — faults confined to one request never harm the connection or other requests
-    (product-machine theorems; under construction) -/
+
+Model: `H3.Iso` — the product of any number of request machines (receive half = the `H3.ReqRecv`
+machine over the `FrameStream` model, unchanged; a small send half) with the ONE thing they share,
+the connection error cell, plus the driver that closes the connection when it finds the cell filled.
+A history is a list of `(stream, event)` pairs and driver polls in any order; an event is a peer
+event (chunk / FIN / RESET c / STOP_SENDING c) or one poll of an application call on that stream's
+handle.  Nothing bounds the number of streams or the length of the history.
+
+Vocabulary.  `StreamScoped cfg hist`: no stream of the history is, run on its own, told a
+connection-level error — the histories of the property: any subset of the streams may suffer
+stream-scoped faults (RESET, STOP_SENDING, malformed message, oversized section, FIN before
+HEADERS) at any point; excluded are only connection-level protocol violations (bad frame sequence,
+bad frame encoding, QPACK failure), which are allowed — required — to close the connection.
+`view j x`: what a run looks like from stream `j` — its final state and what its application saw. -/
 namespace H3.Props.C07
+open H3.Iso H3.Gen.Consts
+open H3.ReqRecv (Role Res St FSt Env fsSrc fsFuel first)
+
+/-! ### the stream-scoped fault transitions -/
+
+/-- the calls that write a frame on the stream -/
+def isWrite : Call → Bool
+  | .sendHead _ | .sendData _ | .sendTrailers _ => true
+  | _ => false
+
+/-- `FaultStep cfg r ev o`: in request state `r` the event `ev` is a stream-scoped fault transition,
+    and `o` is what the application must be told.  `r` is ANY state of the request that fits the
+    side condition: in the RESET cases `s` is any state of the frame stream — any buffered bytes,
+    any position inside a frame header (`expected`), any position inside a DATA payload
+    (`remaining`) — so the RESET comes at any point of the byte stream, with any code. -/
+inductive FaultStep (cfg : Cfg) : Req → StreamEv → Obs → Prop
+  /-- the peer's RESET_STREAM arrives -/
+  | resetArrives (r : Req) (c : Nat) : FaultStep cfg r (.peer (.reset c)) .quiet
+  /-- the peer's STOP_SENDING arrives -/
+  | stopArrives (r : Req) (c : Nat) : FaultStep cfg r (.peer (.stop c)) .quiet
+  /-- `resolve_request` / `recv_response` meets the RESET ⇒ `RemoteTerminate{c}` -/
+  | resetHead (r : Req) (s : H3.FS.St) (c : Nat) (rest : List H3.FS.Ev) :
+      r.rx.src = (s, .reset c :: rest) → s.eos = false → s.remaining = 0 → live cfg r .head →
+      FaultStep cfg r (.call .head) (.ans (.res (.errReset c)))
+  /-- `recv_data` meets the RESET, between frames or inside a DATA payload ⇒ `RemoteTerminate{c}` -/
+  | resetData (r : Req) (s : H3.FS.St) (c : Nat) (rest : List H3.FS.Ev) :
+      r.rx.src = (s, .reset c :: rest) → s.eos = false → live cfg r .data →
+      FaultStep cfg r (.call .data) (.ans (.res (.errReset c)))
+  /-- `recv_trailers` meets the RESET — reading the trailers' frame, or (trailer block already in
+      hand) looking at what follows it ⇒ `RemoteTerminate{c}` -/
+  | resetTrailers (r : Req) (s : H3.FS.St) (c : Nat) (rest : List H3.FS.Ev) :
+      r.rx.src = (s, .reset c :: rest) → s.eos = false → s.remaining = 0 → live cfg r .trailers →
+      FaultStep cfg r (.call .trailers) (.ans (.res (.errReset c)))
+  /-- the documented body loop meets the RESET in `recv_data` -/
+  | resetBody (r : Req) (s : H3.FS.St) (c : Nat) (rest : List H3.FS.Ev) (fuel : Nat) :
+      r.rx.src = (s, .reset c :: rest) → s.eos = false → r.atTrailers = false → live cfg r (.body (fuel + 1)) →
+      FaultStep cfg r (.call (.body (fuel + 1))) (.body [.errReset c] none)
+  /-- the documented body loop, arrived at `recv_trailers`, suffers whatever `recv_trailers` suffers -/
+  | bodyAtTrailers (r : Req) (a : Ans) (fuel : Nat) :
+      FaultStep cfg r (.call .trailers) (.ans a) → r.atTrailers = true → live cfg r (.body fuel) →
+      FaultStep cfg r (.call (.body fuel)) (.body [] (some a))
+  /-- `send_response` / `send_data` / `send_trailers` after the peer's STOP_SENDING ⇒
+      `RemoteTerminate{c}` -/
+  | stopSend (r : Req) (c : Nat) (call : Call) :
+      r.snd.stopped = some c → r.snd.fin = false → isWrite call = true → live cfg r call →
+      FaultStep cfg r (.call call) (.ans (.res (.errReset c)))
+  /-- the head is validly encoded but the message is malformed ⇒ stream error H3_MESSAGE_ERROR -/
+  | malformedHead (r : Req) (enc : Bytes) (s' : FSt) :
+      fsSrc.pollNext r.rx.src = (.frame (.headers enc), s') → cfg.hdr.head enc = .malformed →
+      live cfg r .head →
+      FaultStep cfg r (.call .head) (.ans (.res (.errStream CODE_H3_MESSAGE_ERROR)))
+  /-- the trailer section (remembered by `recv_data`, stream at its end) is malformed ⇒
+      H3_MESSAGE_ERROR -/
+  | malformedTrailers (r : Req) (enc : Bytes) :
+      r.rx.trailers = some enc → fsSrc.isEos r.rx.src = true → cfg.hdr.trailer enc = .malformed →
+      live cfg r .trailers →
+      FaultStep cfg r (.call .trailers) (.ans (.res (.errStream CODE_H3_MESSAGE_ERROR)))
+  /-- the same when the end of the stream is only found by the look at the frame after the trailers -/
+  | malformedTrailersFin (r : Req) (enc : Bytes) (s' : FSt) :
+      r.rx.trailers = some enc → fsSrc.isEos r.rx.src = false → fsSrc.pollNext r.rx.src = (.none, s') →
+      cfg.hdr.trailer enc = .malformed → live cfg r .trailers →
+      FaultStep cfg r (.call .trailers) (.ans (.res (.errStream CODE_H3_MESSAGE_ERROR)))
+  /-- client: the response head is over the limit ⇒ header-too-big -/
+  | tooBigHeadClient (r : Req) (enc : Bytes) (s' : FSt) :
+      cfg.role = .client → fsSrc.pollNext r.rx.src = (.frame (.headers enc), s') →
+      cfg.hdr.head enc = .tooBig → live cfg r .head →
+      FaultStep cfg r (.call .head) (.ans .tooBig)
+  /-- server: the request head is over the limit, the 431 is written ⇒ header-too-big -/
+  | tooBigHeadServer (r : Req) (enc : Bytes) (s' : FSt) (fs : Bytes) (w : H3.WriteBuf.WB) :
+      cfg.role = .server → fsSrc.pollNext r.rx.src = (.frame (.headers enc), s') →
+      cfg.hdr.head enc = .tooBig → cfg.resp431 = some fs → H3.WriteBuf.fromFrame (.headers fs) = some w →
+      r.snd.stopped = none → r.snd.fin = false → live cfg r .head →
+      FaultStep cfg r (.call .head) (.ans .tooBig)
+  /-- server: over the limit, and the 431 itself exceeds the client's limit ⇒ header-too-big -/
+  | tooBigHeadServerRefused (r : Req) (enc : Bytes) (s' : FSt) :
+      cfg.role = .server → fsSrc.pollNext r.rx.src = (.frame (.headers enc), s') →
+      cfg.hdr.head enc = .tooBig → cfg.resp431 = none → live cfg r .head →
+      FaultStep cfg r (.call .head) (.ans .tooBig)
+  /-- server: over the limit, and the peer has stopped the stream: `send_response(431).await?`
+      returns the send error `RemoteTerminate{c}` -/
+  | tooBigHeadServerStopped (r : Req) (enc : Bytes) (s' : FSt) (fs : Bytes) (c : Nat) :
+      cfg.role = .server → fsSrc.pollNext r.rx.src = (.frame (.headers enc), s') →
+      cfg.hdr.head enc = .tooBig → cfg.resp431 = some fs → r.snd.stopped = some c → r.snd.fin = false →
+      live cfg r .head →
+      FaultStep cfg r (.call .head) (.ans (.res (.errReset c)))
+  /-- the trailer section is over the limit ⇒ header-too-big -/
+  | tooBigTrailers (r : Req) (enc : Bytes) :
+      r.rx.trailers = some enc → fsSrc.isEos r.rx.src = true → cfg.hdr.trailer enc = .tooBig →
+      live cfg r .trailers →
+      FaultStep cfg r (.call .trailers) (.ans .tooBig)
+  | tooBigTrailersFin (r : Req) (enc : Bytes) (s' : FSt) :
+      r.rx.trailers = some enc → fsSrc.isEos r.rx.src = false → fsSrc.pollNext r.rx.src = (.none, s') →
+      cfg.hdr.trailer enc = .tooBig → live cfg r .trailers →
+      FaultStep cfg r (.call .trailers) (.ans .tooBig)
+  /-- server: the stream ends before any HEADERS ⇒ stream error H3_REQUEST_INCOMPLETE -/
+  | finFirst (r : Req) (s' : FSt) :
+      cfg.role = .server → fsSrc.pollNext r.rx.src = (.none, s') → live cfg r .head →
+      FaultStep cfg r (.call .head) (.ans (.res (.errStream CODE_H3_REQUEST_INCOMPLETE)))
+
+/-- what a fault transition does, as a step of the request: the demanded answer, the cell as found -/
+theorem fault_step (cfg : Cfg) (r : Req) (ev : StreamEv) (o : Obs) (hf : FaultStep cfg r ev o)
+    (cell : Option Nat) : (Req.step cfg cell r ev).2 = (cell, o) := by
+  induction hf with
+  | resetArrives c => rfl
+  | stopArrives c => rfl
+  | resetBody s c rest fuel hsrc he hat hl =>
+    rw [Req.step_live cfg cell r _ hl]
+    show (stepBody cfg (fuel + 1) cell r).2 = _
+    rw [stepBody_reset cfg fuel cell r s c rest hat hsrc he]
+  | bodyAtTrailers a fuel hft hat hl ih =>
+    have hlt : live cfg r .trailers := by
+      unfold live accepts at hl ⊢
+      cases hr : cfg.role <;> cases hres : r.resolved <;> simp_all
+    rw [Req.step_live cfg cell r _ hlt] at ih
+    rw [Req.step_live cfg cell r _ hl]
+    show (stepBody cfg fuel cell r).2 = _
+    rw [stepBody_atTrailers cfg fuel cell r hat]
+    have h1 : (stepTrailers cfg cell r).2.1 = cell := congrArg Prod.fst ih
+    have h2 : (stepTrailers cfg cell r).2.2 = .ans a := congrArg Prod.snd ih
+    rw [stepTrailers_obs] at h2
+    simp only [Obs.ans.injEq] at h2
+    rw [h1, h2]
+  | resetHead s c rest hsrc he hr hl =>
+    rw [Req.step_live cfg cell r _ hl, stepHead_reset cfg cell r c (s, .reset c :: rest)
+      (by rw [hsrc]; exact fs_next_reset s c rest he hr)]
+  | resetData s c rest hsrc he hl =>
+    rw [Req.step_live cfg cell r _ hl]
+    by_cases hr : s.remaining = 0
+    · rw [stepData_reset_next cell r c (s, .reset c :: rest) (by rw [hsrc]; simp [fsSrc, hr])
+        (by rw [hsrc]; exact fs_next_reset s c rest he hr)]
+    · rw [stepData_reset_data cell r c (s, .reset c :: rest) (by rw [hsrc]; simp [fsSrc, hr])
+        (by rw [hsrc]; exact fs_data_reset s c rest he hr)]
+  | resetTrailers s c rest hsrc he hr hl =>
+    rw [Req.step_live cfg cell r _ hl]
+    cases ht : r.rx.trailers with
+    | none =>
+      rw [stepTrailers_reset cfg cell r c (s, .reset c :: rest) ht
+        (by rw [hsrc]; exact fs_next_reset s c rest he hr)]
+    | some enc =>
+      rw [stepTrailers_reset_check cfg cell r enc c (s, .reset c :: rest) ht
+        (by rw [hsrc]; exact fs_isEos_false s _ he) (by rw [hsrc]; exact fs_next_reset s c rest he hr)]
+  | stopSend c call hs hfin hw hl =>
+    rw [Req.step_live cfg cell r _ hl]
+    cases call <;> simp [isWrite] at hw <;> simp [stepSend, write_stopped _ _ c hs hfin]
+  | malformedHead enc s' hn hm hl =>
+    rw [Req.step_live cfg cell r _ hl, stepHead_malformed cfg cell r enc s' hn hm]
+  | malformedTrailers enc ht he hm hl =>
+    rw [Req.step_live cfg cell r _ hl, stepTrailers_malformed cfg cell r enc ht he hm]
+  | tooBigHeadClient enc s' hrole hn hm hl =>
+    rw [Req.step_live cfg cell r _ hl, stepHead_tooBig_client cfg cell r enc s' hrole hn hm]
+  | tooBigHeadServer enc s' fs w hrole hn hm h431 hw hs hfin hl =>
+    rw [Req.step_live cfg cell r _ hl, stepHead_tooBig_server cfg cell r enc s' hrole hn hm]
+    simp [tooBigServer, h431, write_ok _ _ w hs hfin hw]
+  | tooBigHeadServerRefused enc s' hrole hn hm h431 hl =>
+    rw [Req.step_live cfg cell r _ hl, stepHead_tooBig_server cfg cell r enc s' hrole hn hm]
+    simp [tooBigServer, h431]
+  | tooBigHeadServerStopped enc s' fs c hrole hn hm h431 hs hfin hl =>
+    rw [Req.step_live cfg cell r _ hl, stepHead_tooBig_server cfg cell r enc s' hrole hn hm]
+    simp [tooBigServer, h431, write_stopped _ _ c hs hfin]
+  | tooBigTrailers enc ht he hm hl =>
+    rw [Req.step_live cfg cell r _ hl, stepTrailers_tooBig cfg cell r enc ht he hm]
+  | malformedTrailersFin enc s' ht he hn hm hl =>
+    rw [Req.step_live cfg cell r _ hl, stepTrailers_malformed_fin cfg cell r enc s' ht he hn hm]
+  | tooBigTrailersFin enc s' ht he hn hm hl =>
+    rw [Req.step_live cfg cell r _ hl, stepTrailers_tooBig_fin cfg cell r enc s' ht he hn hm]
+  | finFirst s' hrole hn hl =>
+    rw [Req.step_live cfg cell r _ hl, stepHead_finFirst cfg cell r s' hrole hn]
+
+theorem fault_not_conn (cfg : Cfg) (r : Req) (ev : StreamEv) (o : Obs) (hf : FaultStep cfg r ev o) :
+    o.isConn = false := by
+  induction hf with
+  | bodyAtTrailers a fuel hft hat hl ih => simpa [Obs.isConn, optConn] using ih
+  | _ => rfl
+
+/-- **C07, per transition.** Every stream-scoped fault transition — the peer's RESET with any code
+    arriving, and being met at any point of the byte stream by `resolve_request`/`recv_response`,
+    `recv_data` or `recv_trailers`; STOP_SENDING with any code arriving, and being met by a send
+    call; a validly encoded but malformed head or trailer section; a head or trailer section over
+    the limit (server: with the 431 written, refused, or stopped); FIN before HEADERS on a server —
+    taken on stream `i` of ANY connection state: tells the application of stream `i` exactly the
+    fitting stream-level error (`RemoteTerminate{c}` / H3_MESSAGE_ERROR / header-too-big /
+    H3_REQUEST_INCOMPLETE), never a connection error; leaves the error cell exactly as it was (so
+    empty stays empty); calls `close` neither in the step nor in a driver poll following it; and
+    leaves the state of every other stream untouched. -/
+theorem C07_stream_fault_is_local (cfg : Cfg) (c : Conn) (i : Nat) (ev : StreamEv) (o : Obs)
+    (hf : FaultStep cfg (c.get i) ev o) :
+    (step cfg c (i, ev)).2 = o ∧ o.isConn = false ∧
+    (step cfg c (i, ev)).1.cell = c.cell ∧
+    (step cfg c (i, ev)).1.closed = c.closed ∧
+    (c.cell = none → (drive (step cfg c (i, ev)).1).closed = c.closed) ∧
+    ∀ j, j ≠ i → (step cfg c (i, ev)).1.get j = c.get j := by
+  have h := fault_step cfg (c.get i) ev o hf c.cell
+  have hcell : (step cfg c (i, ev)).1.cell = c.cell := by rw [step_cell, h]
+  refine ⟨by rw [step_obs, h], ?_, hcell, rfl, ?_, fun j hj => step_other cfg c i j ev hj⟩
+  · exact fault_not_conn cfg _ ev o hf
+  · intro hc
+    rw [drive_of_empty _ (by rw [hcell, hc])]
+    rfl
+
+/-- **What h3 does on the faulted stream itself** (as the code does): a malformed head ⇒
+    STOP_SENDING(H3_MESSAGE_ERROR), and on a server also RESET_STREAM(H3_MESSAGE_ERROR) and the
+    resolver is gone; FIN before HEADERS ⇒ RESET_STREAM(H3_REQUEST_INCOMPLETE); an oversized response
+    ⇒ STOP_SENDING(H3_REQUEST_CANCELLED); an oversized request ⇒ the 431 HEADERS frame appended to
+    what was written on THAT stream, no reset; a RESET met by a call, a STOP_SENDING met by a send
+    call ⇒ nothing is sent, nothing written (`first old c` = `c` unless one was sent before). -/
+theorem C07_fault_reaction (cfg : Cfg) (cell : Option Nat) (r : Req) :
+    (∀ enc s', fsSrc.pollNext r.rx.src = (.frame (.headers enc), s') → cfg.hdr.head enc = .malformed →
+      live cfg r .head →
+      let r' := (Req.step cfg cell r (.call .head)).1
+      r'.rx.env.stop = first r.rx.env.stop CODE_H3_MESSAGE_ERROR ∧
+      r'.rx.env.rst = (if cfg.role = .server then first r.rx.env.rst CODE_H3_MESSAGE_ERROR else r.rx.env.rst) ∧
+      r'.snd = r.snd ∧ r'.gone = (cfg.role == .server)) ∧
+    (∀ s', cfg.role = .server → fsSrc.pollNext r.rx.src = (.none, s') → live cfg r .head →
+      let r' := (Req.step cfg cell r (.call .head)).1
+      r'.rx.env.rst = first r.rx.env.rst CODE_H3_REQUEST_INCOMPLETE ∧ r'.rx.env.stop = r.rx.env.stop ∧
+      r'.snd = r.snd ∧ r'.gone = true) ∧
+    (∀ enc s', cfg.role = .client → fsSrc.pollNext r.rx.src = (.frame (.headers enc), s') →
+      cfg.hdr.head enc = .tooBig → live cfg r .head →
+      let r' := (Req.step cfg cell r (.call .head)).1
+      r'.rx.env.stop = first r.rx.env.stop CODE_H3_REQUEST_CANCELLED ∧ r'.rx.env.rst = r.rx.env.rst ∧
+      r'.snd = r.snd) ∧
+    (∀ enc s' fs w, cfg.role = .server → fsSrc.pollNext r.rx.src = (.frame (.headers enc), s') →
+      cfg.hdr.head enc = .tooBig → cfg.resp431 = some fs → H3.WriteBuf.fromFrame (.headers fs) = some w →
+      r.snd.stopped = none → r.snd.fin = false → live cfg r .head →
+      let r' := (Req.step cfg cell r (.call .head)).1
+      r'.snd.tx = r.snd.tx ++ w.view ∧ r'.rx.env.rst = r.rx.env.rst ∧ r'.rx.env.stop = r.rx.env.stop ∧
+      r'.gone = true) ∧
+    (∀ s c rest, r.rx.src = (s, .reset c :: rest) → s.eos = false → live cfg r .data →
+      let r' := (Req.step cfg cell r (.call .data)).1
+      r'.rx.env.rst = r.rx.env.rst ∧ r'.rx.env.stop = r.rx.env.stop ∧ r'.snd = r.snd) ∧
+    (∀ c call, r.snd.stopped = some c → r.snd.fin = false → isWrite call = true → live cfg r call →
+      (Req.step cfg cell r (.call call)).1 = r) := by
+  refine ⟨?_, ?_, ?_, ?_, ?_, ?_⟩
+  · intro enc s' hn hm hl
+    rw [Req.step_live cfg cell r _ hl, stepHead_malformed cfg cell r enc s' hn hm]
+    exact ⟨rfl, rfl, rfl, rfl⟩
+  · intro s' hrole hn hl
+    rw [Req.step_live cfg cell r _ hl, stepHead_finFirst cfg cell r s' hrole hn]
+    exact ⟨rfl, rfl, rfl, rfl⟩
+  · intro enc s' hrole hn hm hl
+    rw [Req.step_live cfg cell r _ hl, stepHead_tooBig_client cfg cell r enc s' hrole hn hm]
+    exact ⟨rfl, rfl, rfl⟩
+  · intro enc s' fs w hrole hn hm h431 hw hs hfin hl
+    rw [Req.step_live cfg cell r _ hl, stepHead_tooBig_server cfg cell r enc s' hrole hn hm]
+    simp [tooBigServer, h431, write_ok _ _ w hs hfin hw, unload]
+  · intro s c rest hsrc he hl
+    rw [Req.step_live cfg cell r _ hl]
+    by_cases hr : s.remaining = 0
+    · rw [stepData_reset_next cell r c (s, .reset c :: rest) (by rw [hsrc]; simp [fsSrc, hr])
+        (by rw [hsrc]; exact fs_next_reset s c rest he hr)]
+      exact ⟨rfl, rfl, rfl⟩
+    · rw [stepData_reset_data cell r c (s, .reset c :: rest) (by rw [hsrc]; simp [fsSrc, hr])
+        (by rw [hsrc]; exact fs_data_reset s c rest he hr)]
+      exact ⟨rfl, rfl, rfl⟩
+  · intro c call hs hfin hw hl
+    rw [Req.step_live cfg cell r _ hl]
+    cases call <;> simp [isWrite] at hw <;> simp [stepSend, write_stopped _ _ c hs hfin]
+
+/-- **Only a connection-level answer writes the cell.** Whatever the state, whatever the event:
+    if the step on stream `i` does not tell its application `StreamError::ConnectionError`, the
+    shared cell is exactly as before; and a step never touches another stream, never calls `close`. -/
+theorem C07_only_connection_errors_write_cell (cfg : Cfg) (c : Conn) (i : Nat) (ev : StreamEv) :
+    ((step cfg c (i, ev)).2.isConn = false → (step cfg c (i, ev)).1.cell = c.cell) ∧
+    (step cfg c (i, ev)).1.closed = c.closed ∧
+    ∀ j, j ≠ i → (step cfg c (i, ev)).1.get j = c.get j :=
+  ⟨fun h => by rw [step_cell]; exact Req.step_cell_ok cfg c.cell (c.get i) ev (by rwa [step_obs] at h),
+   rfl, fun j hj => step_other cfg c i j ev hj⟩
+
+/-! ### histories -/
+
+/-- No stream of the history is, run on its own, told a connection-level error. -/
+def StreamScoped (cfg : Cfg) (hist : List HEv) : Prop :=
+  ∀ i ∈ sidsOf hist, ∀ o ∈ (Req.run cfg none {} (proj i hist)).2.2, o.isConn = false
+
+instance (cfg : Cfg) (hist : List HEv) : Decidable (StreamScoped cfg hist) := by
+  unfold StreamScoped; exact inferInstance
+
+theorem quiet_of_streamScoped (cfg : Cfg) (hist : List HEv) (hs : StreamScoped cfg hist) :
+    QuietHist cfg {} hist := by
+  intro i
+  by_cases hi : i ∈ sidsOf hist
+  · exact quiet_of_no_connErr cfg _ _ (hs i hi)
+  · rw [proj_nil_of_not_mem i hist hi]; trivial
+
+/-- **C07, non-interference.** In every history of any length over any number of streams in which
+    no stream is told a connection-level error — whatever stream-scoped faults hit whichever
+    streams, at whatever points, under whatever interleaving of all tasks and deliveries — what the
+    run looks like from ANY stream `j` (its final state, everything its application saw, in order)
+    (a) is the run of `j`'s own events alone, a function of `j`'s own events only; (b) is what `j`
+    sees in the history that contains nothing but `j`'s events; (c) is the same with and without the
+    faulted streams: for every set `F` of streams not containing `j`, removing the streams of `F`
+    from the history altogether changes nothing for `j`; (d) is the same with and without the
+    faults: any other such history with the same events on `j` — different faults, other streams,
+    another interleaving — looks the same from `j`. -/
+theorem C07_neighbours_unaffected (cfg : Cfg) (hist : List HEv) (hs : StreamScoped cfg hist) (j : Nat) :
+    view j (run cfg {} hist) =
+      ((Req.run cfg none {} (proj j hist)).1, (Req.run cfg none {} (proj j hist)).2.2) ∧
+    view j (run cfg {} hist) = view j (run cfg {} (only j hist)) ∧
+    (∀ F : Nat → Bool, F j = false → view j (run cfg {} hist) = view j (run cfg {} (without F hist))) ∧
+    (∀ hist', StreamScoped cfg hist' → proj j hist' = proj j hist →
+      view j (run cfg {} hist') = view j (run cfg {} hist)) := by
+  have hq := quiet_of_streamScoped cfg hist hs
+  have main : ∀ h', QuietHist cfg {} h' → proj j h' = proj j hist →
+      view j (run cfg {} h') = view j (run cfg {} hist) := by
+    intro h' hq' hp
+    rw [((run_decomposes cfg h' {} rfl rfl hq').2.2 j).1, ((run_decomposes cfg hist {} rfl rfl hq).2.2 j).1, hp]
+  refine ⟨((run_decomposes cfg hist {} rfl rfl hq).2.2 j).1, ?_, ?_, ?_⟩
+  · refine (main (only j hist) ?_ ?_).symm
+    · intro i
+      rw [proj_only]
+      by_cases hi : j = i
+      · subst hi; rw [if_pos rfl]; exact hq j
+      · rw [if_neg hi]; trivial
+    · rw [proj_only, if_pos rfl]
+  · intro F hF
+    refine (main (without F hist) ?_ ?_).symm
+    · intro i
+      rw [proj_without]
+      by_cases hi : F i = true
+      · rw [if_pos hi]; trivial
+      · rw [if_neg hi]; exact hq i
+    · rw [proj_without, hF]; rfl
+  · intro h' hs' hp
+    exact main h' (quiet_of_streamScoped cfg h' hs') hp
+
+/-- **C07, every interleaving.** Two histories with the same events per stream in the same
+    per-stream order — i.e. any two interleavings of the same tasks and deliveries, in particular
+    any permutation of a history that keeps each stream's own order — look the same from every
+    stream, leave the same cell and the same `close` calls.  (Steps of different streams commute
+    because none of them writes the cell and each touches only its own stream's state.) -/
+theorem C07_interleaving_irrelevant (cfg : Cfg) (h₁ h₂ : List HEv) (hs : StreamScoped cfg h₁)
+    (hp : ∀ j, proj j h₁ = proj j h₂) :
+    (∀ j, view j (run cfg {} h₁) = view j (run cfg {} h₂)) ∧
+    (run cfg {} h₁).1.cell = (run cfg {} h₂).1.cell ∧
+    (run cfg {} h₁).1.closed = (run cfg {} h₂).1.closed := by
+  have hq₁ := quiet_of_streamScoped cfg h₁ hs
+  have hq₂ := quietHist_congr cfg {} h₁ h₂ hp hq₁
+  obtain ⟨a1, a2, a3⟩ := run_decomposes cfg h₁ {} rfl rfl hq₁
+  obtain ⟨b1, b2, b3⟩ := run_decomposes cfg h₂ {} rfl rfl hq₂
+  refine ⟨fun j => ?_, by rw [a1, b1], by rw [a2, b2]⟩
+  rw [(a3 j).1, (b3 j).1, hp j]
+
+/-- the generator of those permutations: swapping two adjacent events of different streams (or an
+    event and a driver poll) anywhere in a history changes nothing for any stream -/
+theorem C07_adjacent_swap (cfg : Cfg) (a b : List HEv) (x y : HEv) (hxy : independent x y = true)
+    (hs : StreamScoped cfg (a ++ x :: y :: b)) (j : Nat) :
+    view j (run cfg {} (a ++ x :: y :: b)) = view j (run cfg {} (a ++ y :: x :: b)) :=
+  (C07_interleaving_irrelevant cfg _ _ hs (fun k => proj_swap k x y hxy a b)).1 j
+
+/-- **C07, the connection stays open.** In such a history, at every point of it (after every
+    prefix, driver polls included wherever they fall), the error cell is empty and `close` has
+    never been called. -/
+theorem C07_connection_stays_open (cfg : Cfg) (hist : List HEv) (hs : StreamScoped cfg hist)
+    (pre suf : List HEv) (hsplit : hist = pre ++ suf) :
+    (run cfg {} pre).1.cell = none ∧ (run cfg {} pre).1.closed = [] := by
+  have hq := quiet_of_streamScoped cfg hist hs
+  rw [hsplit] at hq
+  obtain ⟨h1, h2, _⟩ := run_decomposes cfg pre {} rfl rfl (quietHist_prefix cfg {} pre suf hq)
+  exact ⟨h1, h2⟩
+
+/-! ### a healthy stream delivers exactly its own bytes -/
+
+section Healthy
+open H3.ReqRecv H3.Props.C03
+
+/-- **C07 composed with C03** (`_partial`: two gaps against the full statement, both inherited from
+    C03 — see below).  A healthy stream `j` of such a history — its own events are: the peer delivers
+    `ps` (any chunking), then the application runs the documented receive pattern (head, then the
+    body loop and the trailers) — where the bytes delivered are, for the frame layer, a frame
+    sequence `toks` ended by FIN that is a valid message `U* H (U|D)* (H U*)?` within the size limit:
+    stream `j`'s application is given the head, then as body exactly the concatenation of the DATA
+    payloads of ITS stream, in order, each byte once, then the end of the body, then the trailers
+    iff present; h3 resets nothing on it; the cell is empty and `close` was never called — whatever
+    happened on the other streams, in whatever interleaving with them.
+
+    Full statement: the same for EVERY order of `j`'s own deliveries and polls, with no hypothesis
+    about the frame layer.  Gaps: (1) `FrameSim` — that the `FrameStream` model hands the request
+    layer the frames of the bytes — is the hypothesis of `C03_lifted_to_chunks` (C02's subject; an
+    open proof obligation there, established per script by kernel evaluation, as in the example
+    below); (2) within stream `j` itself the deliveries precede the polls (C03's `documented`
+    pattern has the whole input in the source); polls of `j` that come before its bytes (`Pending`,
+    then resumed) are covered by `C07_neighbours_unaffected` (`j` sees what it would see alone)
+    and by the differential run, not by this theorem.  The interleaving with all OTHER streams is
+    unrestricted. -/
+theorem C07_healthy_stream_delivers_partial (cfg : Cfg) (hist : List HEv) (hs : StreamScoped cfg hist) (j : Nat)
+    (ps : List Peer) (fuel : Nat)
+    (hj : proj j hist = ps.map .peer ++ [.call .head, .call (.body fuel)])
+    {R : FSt → TS → Prop} (sim : FrameSim fsSrc tokSrc R) (toks : List Tok)
+    (hR : R ({}, fsScript ps) (TS.ofToks toks .fin))
+    (pre mid post : List Tok) (h : ReqRecv.Bytes) (tr : Option ReqRecv.Bytes)
+    (hpre : ∀ t ∈ pre, isU t = true) (hmid : ∀ t ∈ mid, isUD t = true) (hpost : ∀ t ∈ post, isU t = true)
+    (htoks : toks = pre ++ .headers h :: (mid ++ (match tr with | none => [] | some t => .headers t :: post)))
+    (hwf : ∀ tok ∈ toks, TokWF tok ∧ HdrOk cfg.hdr.base tok) (hfuel : answers toks .fin + 2 ≤ fuel)
+    (hh : cfg.hdr.head h ≠ .tooBig) (htr : ∀ t, tr = some t → cfg.hdr.trailer t ≠ .tooBig) :
+    ∃ rs : List Res,
+      obsOf j (run cfg {} hist).2 =
+        List.replicate ps.length .quiet ++
+          [.ans (.res (.head h)),
+           .body rs (some (.res (trRes tr)))] ∧
+      bodyBytes rs = payloads mid ∧ rs.getLast? = some .end_ ∧
+      ((run cfg {} hist).1.get j).rx.env.rst = none ∧
+      (run cfg {} hist).1.cell = none ∧ (run cfg {} hist).1.closed = [] := by
+  have hq := quiet_of_streamScoped cfg hist hs
+  obtain ⟨hcell, hclosed, hview⟩ := run_decomposes cfg hist {} rfl rfl hq
+  have hv := (hview j).1
+  have hg : ({} : Conn).get j = ({} : Req) := rfl
+  rw [hg] at hv
+  -- C03: the documented pattern over the chunks is the one over the frames, which delivers
+  have hlift := (C03_lifted_to_chunks fsSrc R sim cfg.role cfg.hdr.base ({}, fsScript ps) toks .fin fuel hR hwf hfuel).1
+  have hdel := C03_valid_message_delivered cfg.role cfg.hdr.base pre mid post h tr fuel hpre hmid hpost toks htoks
+    hwf hfuel
+  rw [← hlift] at hdel
+  have hdel' : observe (documented cfg.role fsSrc cfg.hdr.base fuel { src := ({}, fsScript ps) }) =
+      { calls := [.head h, .body (payloads mid), .bodyEnd, trObs tr]
+        connError := none, streamReset := none } := by
+    cases tr <;> exact hdel
+  obtain ⟨t1, t2, t3, t4, t5, t6⟩ := observe_delivered _ h (payloads mid) tr hdel'
+  -- the product's run of stream j alone is that trace
+  have hdoc := run_documented cfg ps fuel h t1 hh (by
+    intro t ht
+    rw [t4] at ht
+    cases tr with
+    | none => simp [trRes] at ht
+    | some x =>
+      simp only [trRes, Option.some.injEq, Res.trailers.injEq] at ht
+      subst ht
+      exact htr x rfl)
+  simp only at hdoc
+  obtain ⟨d1, _, d3⟩ := hdoc
+  rw [← hj] at d1 d3
+  simp only [view, Prod.mk.injEq] at hv
+  refine ⟨_, ?_, t2, t3, ?_, hcell, hclosed⟩
+  · rw [hv.2, d1, t4]; rfl
+  · have : ((run cfg {} hist).1.get j) = _ := hv.1
+    rw [this, d3]
+    exact t6
+
+end Healthy
+
+/-! ### non-vacuity: three concurrent requests, one RESET, one malformed, interleaved -/
+
+/-- header oracle of the examples: block `ee` is a validly encoded malformed message, `ff` is over
+    the limit, `fe` does not decode; everything else is fine -/
+def hdr₃ : Hdr where
+  head := fun b => if b = [0xee] then .malformed else if b = [0xff] then .tooBig else if b = [0xfe] then .qpack else .ok
+  trailer := fun b => if b = [0xee] then .malformed else if b = [0xff] then .tooBig else .ok
+
+def srv : Cfg := { role := .server, hdr := hdr₃ }
+def cli : Cfg := { role := .client, hdr := hdr₃ }
+
+def on (sid : Nat) (ev : StreamEv) : HEv := .on sid ev
+def chunk (sid : Nat) (b : Bytes) : HEv := .on sid (.peer (.chunk b))
+
+/-- stream 0 healthy (the message of C03's `script₁`: HEADERS aa bb, DATA(0), DATA c1 c2 cut in two,
+    a grease frame, FIN), stream 4 reset with code 7 inside its second DATA payload after the
+    application has begun to read, stream 8 a malformed head; events interleaved, driver polls in
+    between -/
+def hist₃ : List HEv :=
+  [ chunk 0 [0x01, 0x02, 0xaa, 0xbb, 0x00, 0x00, 0x00],
+    chunk 4 [0x01, 0x02, 0xaa, 0xbb, 0x00, 0x01, 0x31, 0x00, 0x05, 0x32],
+    chunk 8 [0x01, 0x01],
+    on 4 (.call .head),
+    .drive,
+    chunk 0 [0x02, 0xc1],
+    on 8 (.call .head),
+    on 4 (.call (.body 20)),
+    chunk 8 [0xee, 0x00, 0x01, 0x55],
+    on 8 (.peer .fin),
+    on 4 (.peer (.reset 7)),
+    chunk 0 [0xc2, 0x21, 0x00],
+    on 8 (.call .head),
+    on 4 (.call (.body 20)),
+    .drive,
+    on 0 (.peer .fin),
+    on 8 (.call .data),
+    on 0 (.call .head),
+    on 4 (.call (.sendHead [0x00, 0x00, 0xd9])),
+    on 0 (.call (.body 20)),
+    on 0 (.call (.sendHead [0x00, 0x00, 0xd9])),
+    on 0 (.call (.sendData [0x68, 0x69])),
+    on 0 (.call .finish),
+    .drive ]
+
+example : StreamScoped srv hist₃ := by decide +kernel
+
+-- the healthy stream: head, the two body bytes of ITS stream, end, no trailers; its reply written
+example : obsOf 0 (run srv {} hist₃).2 =
+    [.quiet, .quiet, .quiet, .quiet, .ans (.res (.head [0xaa, 0xbb])),
+     .body [.data [0xc1], .data [0xc2], .end_] (some (.res .noTrailers)), .ok, .ok, .ok] := by decide +kernel
+example : ((run srv {} hist₃).1.get 0).snd =
+    { tx := [0x01, 0x03, 0x00, 0x00, 0xd9, 0x00, 0x02, 0x68, 0x69], stopped := none, fin := true } := by
+  decide +kernel
+-- the reset stream: what it had read, then RemoteTerminate{7}; nothing sent against it
+example : obsOf 4 (run srv {} hist₃).2 =
+    [.quiet, .ans (.res (.head [0xaa, 0xbb])), .body [.data [0x31], .data [0x32], .pending] none, .quiet,
+     .body [.errReset 7] none, .ok] := by decide +kernel
+example : ((run srv {} hist₃).1.get 4).rx.env = {} := by decide +kernel
+-- the malformed stream: pending, then H3_MESSAGE_ERROR, reset and stop with that code, handle gone
+example : obsOf 8 (run srv {} hist₃).2 =
+    [.quiet, .ans (.res .pending), .quiet, .quiet, .ans (.res (.errStream 270)), .noHandle] := by decide +kernel
+example : ((run srv {} hist₃).1.get 8).rx.env = { cell := none, rst := some 270, stop := some 270 } := by
+  decide +kernel
+-- the connection
+example : (run srv {} hist₃).1.cell = none ∧ (run srv {} hist₃).1.closed = [] := by decide +kernel
+-- … and from stream 0 the run looks like the one without streams 4 and 8
+example : view 0 (run srv {} hist₃) = view 0 (run srv {} (without (fun s => s == 4 || s == 8) hist₃)) :=
+  (C07_neighbours_unaffected srv hist₃ (by decide +kernel) 0).2.2.1 _ rfl
+
+/-! every interleaving: the same events, the streams served one after the other instead -/
+def hist₃seq : List HEv :=
+  (only 8 hist₃ ++ [.drive] ++ only 0 hist₃ ++ only 4 hist₃)
+
+example : hist₃seq ≠ hist₃ := by decide +kernel
+example : ∀ j ∈ [0, 4, 8, 12], view j (run srv {} hist₃) = view j (run srv {} hist₃seq) := by decide +kernel
+example (j : Nat) : view j (run srv {} hist₃) = view j (run srv {} hist₃seq) :=
+  (C07_interleaving_irrelevant srv hist₃ hist₃seq (by decide +kernel) (fun k => by
+    simp only [hist₃seq, proj_append, proj_only, proj]
+    by_cases h8 : 8 = k
+    · subst h8; simp
+    · by_cases h0 : 0 = k
+      · subst h0; simp
+      · by_cases h4 : 4 = k
+        · subst h4; simp
+        · simp [h8, h0, h4, proj_nil_of_not_mem k hist₃ (by
+            simp only [hist₃, sidsOf, on, chunk, List.mem_cons, List.not_mem_nil, or_false, not_or]
+            omega)])).1 j
+-- at every point of the history the connection is open
+example : ∀ n ∈ List.range 25, (run srv {} (hist₃.take n)).1.cell = none ∧ (run srv {} (hist₃.take n)).1.closed = [] := by
+  decide +kernel
+example : (run srv {} (hist₃.take 13)).1.closed = [] :=
+  (C07_connection_stays_open srv hist₃ (by decide +kernel) (hist₃.take 13) (hist₃.drop 13)
+    (List.take_append_drop 13 hist₃).symm).2
+
+/-! the fault transitions are transitions of reachable states -/
+
+/-- after the RESET has arrived on stream 4 (the body task has read `31 32` and is waiting inside
+    the second DATA payload) -/
+def c₁ : Conn := (run srv {} (hist₃.take 11)).1
+
+example : FaultStep srv (c₁.get 4) (.call .data) (.ans (.res (.errReset 7))) :=
+  .resetData _ (c₁.get 4).rx.src.1 7 [] (by decide +kernel) (by decide +kernel) (by decide +kernel)
+example : (c₁.get 4).rx.src.1.remaining = 4 := by decide +kernel
+example : FaultStep srv (c₁.get 8) (.call .head) (.ans (.res (.errStream 270))) :=
+  .malformedHead _ [0xee] (fsSrc.pollNext (c₁.get 8).rx.src).2 (by decide +kernel) (by decide +kernel)
+    (by decide +kernel)
+example : (step srv c₁ (8, .call .head)).2 = .ans (.res (.errStream 270)) ∧
+    (step srv c₁ (8, .call .head)).1.cell = none ∧ (step srv c₁ (8, .call .head)).1.get 0 = c₁.get 0 :=
+  let h := C07_stream_fault_is_local srv c₁ 8 (.call .head) _
+    (.malformedHead _ [0xee] (fsSrc.pollNext (c₁.get 8).rx.src).2 (by decide +kernel) (by decide +kernel)
+      (by decide +kernel))
+  ⟨h.1, h.2.2.1.trans (by decide +kernel), h.2.2.2.2.2 0 (by decide)⟩
+
+-- the same RESET met by the documented body loop
+example : FaultStep srv (c₁.get 4) (.call (.body 20)) (.body [.errReset 7] none) :=
+  .resetBody _ (c₁.get 4).rx.src.1 7 [] 19 (by decide +kernel) (by decide +kernel) (by decide +kernel)
+    (by decide +kernel)
+
+/-- a RESET after the trailers' frame, met by the body task waiting inside `recv_trailers` -/
+def c₃ : Conn :=
+  (run srv {} [chunk 20 [0x01, 0x01, 0xaa, 0x01, 0x01, 0xab], on 20 (.call .head), on 20 (.call (.body 9)),
+               on 20 (.peer (.reset 3))]).1
+
+example : (c₃.get 20).atTrailers = true ∧ (c₃.get 20).rx.trailers = some [0xab] := by decide +kernel
+example : FaultStep srv (c₃.get 20) (.call (.body 9)) (.body [] (some (.res (.errReset 3)))) :=
+  .bodyAtTrailers _ _ 9
+    (.resetTrailers _ (c₃.get 20).rx.src.1 3 [] (by decide +kernel) (by decide +kernel) (by decide +kernel)
+      (by decide +kernel))
+    (by decide +kernel) (by decide +kernel)
+example : (step srv c₃ (20, .call (.body 9))).2 = .body [] (some (.res (.errReset 3))) := by decide +kernel
+
+/-- malformed trailers (block `ee`), met by the body task inside `recv_trailers` once FIN arrives -/
+def c₄ : Conn :=
+  (run srv {} [chunk 24 [0x01, 0x01, 0xaa, 0x01, 0x01, 0xee], on 24 (.call .head), on 24 (.call (.body 9)),
+               on 24 (.peer .fin)]).1
+
+example : FaultStep srv (c₄.get 24) (.call (.body 9)) (.body [] (some (.res (.errStream 270)))) :=
+  .bodyAtTrailers _ _ 9
+    (.malformedTrailersFin _ [0xee] (fsSrc.pollNext (c₄.get 24).rx.src).2 (by decide +kernel) (by decide +kernel)
+      (by decide +kernel) (by decide +kernel) (by decide +kernel))
+    (by decide +kernel) (by decide +kernel)
+example : ((step srv c₄ (24, .call (.body 9))).1.get 24).rx.env = { cell := none, rst := none, stop := some 270 } := by
+  decide +kernel
+
+/-- FIN before HEADERS; an oversized request; STOP_SENDING (client) -/
+def c₂ : Conn := (run srv {} [on 12 (.peer .fin), chunk 16 [0x01, 0x01, 0xff, 0x00]]).1
+
+example : FaultStep srv (c₂.get 12) (.call .head) (.ans (.res (.errStream 269))) :=
+  .finFirst _ (fsSrc.pollNext (c₂.get 12).rx.src).2 rfl (by decide +kernel) (by decide +kernel)
+example : FaultStep srv (c₂.get 16) (.call .head) (.ans .tooBig) :=
+  .tooBigHeadServer _ [0xff] (fsSrc.pollNext (c₂.get 16).rx.src).2 _ _ rfl (by decide +kernel) (by decide +kernel)
+    rfl rfl (by decide +kernel) (by decide +kernel) (by decide +kernel)
+example : (run srv c₂ [on 12 (.call .head), on 16 (.call .head), .drive]).2 =
+    [(12, .ans (.res (.errStream 269))), (16, .ans .tooBig)] := by decide +kernel
+example : ((run srv c₂ [on 12 (.call .head), on 16 (.call .head), .drive]).1.get 16).snd.tx =
+    [0x01, 0x08, 0x00, 0x00, 0x5f, 0x09, 0x83, 0x69, 0x90, 0xff] := by decide +kernel
+example : ((run srv c₂ [on 12 (.call .head), on 16 (.call .head), .drive]).1.get 12).rx.env.rst = some 269 := by
+  decide +kernel
+example : (run srv c₂ [on 12 (.call .head), on 16 (.call .head), .drive]).1.closed = [] := by decide +kernel
+
+def histC : List HEv :=
+  [ on 0 (.call (.sendHead [0x00, 0x00, 0xd1])), on 4 (.call (.sendHead [0x00, 0x00, 0xd1])),
+    on 4 (.peer (.stop 9)), chunk 0 [0x01, 0x01, 0xff], on 4 (.call (.sendData [1, 2, 3])),
+    chunk 4 [0x01, 0x01, 0xaa, 0x00, 0x01, 0x07], on 0 (.call .head), on 4 (.peer .fin), on 4 (.call .head),
+    on 4 (.call (.body 9)), on 4 (.call .finish), .drive ]
+example : StreamScoped cli histC := by decide +kernel
+example : (run cli {} histC).2 =
+    [(0, .ok), (4, .ok), (4, .quiet), (0, .quiet), (4, .ans (.res (.errReset 9))), (4, .quiet), (0, .ans .tooBig),
+     (4, .quiet), (4, .ans (.res (.head [0xaa]))), (4, .body [.data [7], .end_] (some (.res .noTrailers))), (4, .ok)] := by
+  decide +kernel
+example : ((run cli {} histC).1.get 0).rx.env.stop = some 268 := by decide +kernel
+example : FaultStep cli ((run cli {} (histC.take 4)).1.get 4) (.call (.sendData [1, 2, 3])) (.ans (.res (.errReset 9))) :=
+  .stopSend _ 9 _ (by decide +kernel) (by decide +kernel) rfl (by decide +kernel)
+
+/-! the contrast: a connection-level protocol violation (DATA before HEADERS) is NOT stream-scoped:
+    the cell is written and the driver closes the connection with H3_FRAME_UNEXPECTED (the
+    neighbour's calls still answer from its own stream; it goes down with the connection) -/
+def histBad : List HEv :=
+  [ chunk 0 [0x01, 0x02, 0xaa, 0xbb], chunk 4 [0x00, 0x01, 0x31], on 4 (.call .head), .drive, on 0 (.call .head),
+    on 0 (.call .data) ]
+example : ¬ StreamScoped srv histBad := by decide +kernel
+example : (run srv {} histBad).2 =
+    [(0, .quiet), (4, .quiet), (4, .ans (.res (.errConn 261))), (0, .ans (.res (.head [0xaa, 0xbb]))),
+     (0, .ans (.res .pending))] := by decide +kernel
+example : (run srv {} histBad).1.cell = some 261 ∧ (run srv {} histBad).1.closed = [261] := by decide +kernel
+
+/-! `C07_healthy_stream_delivers_partial` applies: stream 0 of `hist₃` up to its `body` call carries C03's
+    `script₁`, for which the frame-layer interface is established (`C03.simS`) -/
+section
+open H3.ReqRecv H3.Props.C03
+def ps₀ : List Peer :=
+  [.chunk [0x01, 0x02, 0xaa, 0xbb, 0x00, 0x00, 0x00], .chunk [0x02, 0xc1], .chunk [0xc2, 0x21, 0x00], .fin]
+
+example : ∃ rs : List Res,
+    obsOf 0 (run srv {} (hist₃.take 20)).2 =
+      List.replicate 4 .quiet ++ [.ans (.res (.head [0xaa, 0xbb])), .body rs (some (.res .noTrailers))] ∧
+    bodyBytes rs = [0xc1, 0xc2] ∧ rs.getLast? = some .end_ ∧
+    ((run srv {} (hist₃.take 20)).1.get 0).rx.env.rst = none ∧
+    (run srv {} (hist₃.take 20)).1.cell = none ∧ (run srv {} (hist₃.take 20)).1.closed = [] :=
+  C07_healthy_stream_delivers_partial srv (hist₃.take 20) (by decide +kernel) 0 ps₀ 20 (by decide +kernel) simS toksS
+    (by decide +kernel) [] [.data 0 [], .data 2 [[0xc1], [0xc2]], .unknown 0x21 []] [] [0xaa, 0xbb] none
+    (by simp) (by decide) (by simp) rfl (by simp [toksS, TokWF, HdrOk, Hdr.base, srv, hdr₃, HClass.base])
+    (by decide) (by decide) (by simp)
+end
+
 end H3.Props.C07
